@@ -112,6 +112,14 @@ def judge(case, out, m):
             x = mm['reqs'][i]
             if x.get('trace') != o.get('trace') or x.get('status') != o.get('status'):
                 v.append(('disagree', f'req {req["m"]} {unhx(req["p"])!r}: impl {o.get("status")} {o.get("trace")} model {x.get("status")} {x.get("trace")}'))
+            # the tie of theorem C04.scope: its hypotheses (Lean's sideCond, distinct ids) hold for the generated tree, the loop-shaped search
+            # agrees with the function the theorem is about, and the theorem's right-hand side (scopeChain) gives the implementation's trace
+            if x.get('internal') is False:
+                v.append(('disagree', f'req {req["m"]} {unhx(req["p"])!r}: searchP and search (the function of theorem C04.scope) differ'))
+            if x.get('scope_hyp') is False:
+                v.append(('disagree', f'req {req["m"]} {unhx(req["p"])!r}: the generated tree does not satisfy the hypotheses of theorem C04.scope (Lean sideCond / distinct ids)'))
+            elif 'scope_trace' in x and x['scope_trace'] != o.get('trace'):
+                v.append(('disagree', f'req {req["m"]} {unhx(req["p"])!r}: impl trace {o.get("trace")}, scopeChain (right-hand side of C04.scope) gives {x["scope_trace"]}'))
     return v[:6]
 
 
